@@ -137,6 +137,17 @@ def extra(C, prio):
         for order in (tpls, list(reversed(tpls))):
             jobs.append({"cfg": {"prefixes": plist}, "steps": [{"op": "add", "tpls": order}, {"op": "render", "name": "use"}, {"op": "render_component", "name": "k", "auto": False}]})
             meta.append(("prio", v, ("from " + names[pv["o"]["owner"] - 1]) if pv["o"]["r"] == "ok" else None))
+        # the call site does not matter: every defining template also CALLS k (from its body and from a second component it
+        # defines), and an include of a defining template is rendered from `use`: always the highest-priority definition
+        if pv["o"]["r"] == "ok":
+            win = "from " + names[pv["o"]["owner"] - 1]
+            defs = [n for n in names if n]
+            tpls2 = [[n, "{% component k() %}from " + n + "{% endcomponent k %}{% component w" + str(i) + "() %}w{{<k/>}}{% endcomponent w" + str(i) + " %}{{<k/>}}|{{<w" + str(i) + "/>}}"]
+                     for i, n in enumerate(defs)] + [["use", "".join("{% include '" + n + "' %};" for n in defs)]]
+            steps = [{"op": "add", "tpls": tpls2}] + [{"op": "render", "name": n} for n in defs] + [{"op": "render", "name": "use"}] + \
+                    [{"op": "render_component", "name": "w%d" % i, "auto": False} for i in range(len(defs))]
+            jobs.append({"cfg": {"prefixes": plist}, "steps": steps})
+            meta.append(("prio-sites", v, [win + "|w" + win] * len(defs) + ["".join(win + "|w" + win + ";" for _ in defs)] + ["w" + win] * len(defs)))
     # the same component under several fallback prefixes: the highest-priority definition is used
     for present in (["A"], ["p/A"], ["q/A"], ["A", "p/A"], ["p/A", "q/A"], ["A", "q/A"], ["A", "p/A", "q/A"], ["q/A", "p/A", "A"]):
         tpls = [[n, "{% component k() %}from " + n + "{% endcomponent k %}"] for n in present] + [["use", "{{<k/>}}"]]
@@ -178,6 +189,11 @@ def extra(C, prio):
                     if not x.get("ok") or x.get("out") != b:
                         C.violation({"kind": "prio", "v": a}, "component defined at priorities %s (in name order; -1 absent, 0 exact name, k = k-th prefix): engine uses %r, the highest-priority definition is %r" % (
                             a, x.get("out") if x.get("ok") else x.get("kind"), b), {"job": job})
+        elif kind == "prio-sites":
+            for x, want, st in zip(rr[1:], b, job["steps"][1:]):
+                if not x.get("ok") or x.get("out") != want:
+                    C.violation({"kind": "prio-site", "v": a, "site": st.get("name")}, "component defined at priorities %s, called from %s %s: engine gives %r, with the highest-priority definition it is %r" % (
+                        a, st["op"], st.get("name"), x.get("out") if x.get("ok") else (x.get("msg") or x.get("disp", ""))[:100], want), {"job": job})
         elif kind == "priority":
             for x in rr[1:]:
                 if not x.get("ok") or x.get("out") != b:
